@@ -158,6 +158,7 @@ def run_monitor(mod, tier, seed):
         write_evidence(prop, ev)
         print('INCONCLUSIVE property=%s reason=build-failed' % prop)
         return 0
+    build_s = round(time.monotonic() - t0, 1)
     if hasattr(mod, 'prepare'):
         shared = mod.prepare(tier, seed, driver_bin)
     procs = []
@@ -199,6 +200,7 @@ def run_monitor(mod, tier, seed):
     if hasattr(mod, 'finish'):
         # cross-worker checks (e.g. global uniqueness); may add violations
         post = mod.finish(merged, tier, seed) or {}
+    post = dict(post, build_s=build_s, workers_done_s=round(time.monotonic() - t0, 1))
     return conclude(mod, tier, seed, merged, errors, t0, post)
 
 
